@@ -87,7 +87,7 @@ PROPS = {
              "the ECDSA malleable twin and recovery bytes 4..7 are not decided; trusts SHA3", "DESIGN §6 (C13)"),
     "C14": P("hsvc", "rapid state-machine histories with a map model, retained snapshots and a canonical-rebuild hash reference",
              "After every operation all retained snapshots, the live state and the state hash agree with the model, and the hash agrees with a fresh canonical rebuild; "
-             "covers Reset, ClearCache, Flush, reload and node caches. Exploration: 6 accounts x 7 keys.",
+             "covers Reset, ClearCache, Flush, reload, node caches and the contract life cycle (deploy / accept / reject / disable / block). Exploration: 6 accounts x 7 keys.",
              "the hash reference reuses the trie/RLP code on a canonical path (account encoding not re-implemented)", "DESIGN §6 (C14)"),
     "C17": P("hdata", "rapid state machine vs map model; root vs fresh trie and an independent MPT root (hex-prefix + RLP + SHA3-256)",
              "Random set/delete/snapshot/flush/reload/ClearCache histories over prefix-sharing keys are compared step by step with a map for lookups, ordered iteration, "
